@@ -355,3 +355,42 @@ def push_select_inside(t: Term) -> Term:
         return au(a, b)
     except _Mismatch:
         return ("select", c, a, b)
+
+
+def arg_or_default(ck, t: Term, name: str) -> Optional[Term]:
+    """argument `name` of an app / new term; when it was left out (or spelled as the constant default, which the normaliser
+    drops) the parameter's constant default"""
+    v = app_arg(t, name)
+    if v is not None:
+        return v
+    p = ck.ctx.p
+    params = None
+    if t[0] == "app":
+        fn = p.functions.get(t[1])
+        params = fn.call_params() if fn is not None else None
+    elif t[0] == "new":
+        cls = p.classes.get(t[1])
+        params = p.constructor_params(cls) if cls is not None else None
+    for prm in params or []:
+        if prm.name == name and isinstance(prm.default, ast.Constant):
+            return C(prm.default.value)
+    return None
+
+
+def set_difference(t):
+    """(a, b) when `t` is the set difference of the elements of a and b, in either spelling:
+    set(a).difference(b) / set(a).difference(set(b)) / set(a) - set(b).  None otherwise."""
+    def unset(x):
+        return x[2][0] if x[0] == "call" and x[1] in ("set", "frozenset") and len(x[2]) == 1 and not x[3] else None
+    if t[0] == "mcall" and t[2] == "difference" and len(t[3]) == 1 and not (t[4] if len(t) > 4 else ()):
+        a = unset(t[1])
+        b = unset(t[3][0]) or t[3][0]
+        return (a, b) if a is not None else None
+    if t[0] == "poly":
+        items = T.to_poly(t)
+        if len(items) == 2 and all(len(m) == 1 for m in items):
+            pos = [m[0] for m, c in items.items() if c == 1]
+            neg = [m[0] for m, c in items.items() if c == -1]
+            if len(pos) == 1 and len(neg) == 1 and unset(pos[0]) is not None and unset(neg[0]) is not None:
+                return unset(pos[0]), unset(neg[0])
+    return None
